@@ -32,7 +32,7 @@ fn fnv(s: &str) -> u64 {
     hsh
 }
 
-pub type Gen = fn(&mut Rng, &mut Dist) -> Vec<String>;
+pub type Gen = fn(&mut Rng, &mut Dist, u64) -> Vec<String>;
 
 pub fn generator(prop: &str) -> Option<Gen> {
     match prop {
@@ -41,6 +41,7 @@ pub fn generator(prop: &str) -> Option<Gen> {
         "C09" => Some(gen::gen_c09),
         "C10" => Some(gen::gen_c10),
         "C11" => Some(gen::gen_c11),
+        "C14" => Some(gen::gen_c14),
         _ => None,
     }
 }
@@ -48,6 +49,7 @@ pub fn generator(prop: &str) -> Option<Gen> {
 pub fn budget(prop: &str, tier: &str) -> u64 {
     let quick = match prop {
         "C11" => 400,
+        "C14" => 3 * 6 * 155 + 200,
         _ => 150,
     };
     if tier == "thorough" {
@@ -101,9 +103,9 @@ pub fn run(prop: &str, tier: &str, seed: u64, corpus: &[Vec<String>]) -> Report 
     };
     let mut rng = Rng::new(seed);
     let mut scenarios: Vec<Vec<String>> = corpus.to_vec();
-    for _ in 0..n {
+    for i in 0..n {
         let mut r = rng.fork();
-        scenarios.push(gen(&mut r, &mut rep.dist));
+        scenarios.push(gen(&mut r, &mut rep.dist, i));
     }
     for sc in scenarios {
         let (mm, jj, nops, nreq, sig) = run_scenario(&world, prop, &sc);
